@@ -65,6 +65,7 @@ type Exec struct {
 	// results
 	Panics      []string // one deterministic line per panic
 	PanicStacks []string
+	offer       []string // candidates of the scheduling choice being replayed (diagnostics)
 	Deadlock    bool
 	HorizonHit  bool
 	Diverged    string
@@ -307,6 +308,16 @@ func (e *Exec) schedule(self *thread) {
 			}
 			e.abortFrom(self)
 		}
+		if len(e.Choices) < len(e.prefix) {
+			// replaying: remember who is on offer, for the message if this choice diverges
+			e.offer = e.offer[:0]
+			for _, t := range cands {
+				e.offer = append(e.offer, fmt.Sprintf("T%d(%s)@%s", t.id, t.name, t.desc))
+			}
+			if clockAt >= 0 {
+				e.offer = append(e.offer, "clock")
+			}
+		}
 		idx := e.choose(n, KindSched, selfEn, clockAt)
 		if idx == clockAt {
 			e.fireNextTimer()
@@ -373,7 +384,7 @@ func (e *Exec) choose(n int, kind byte, selfEn bool, clockAt int) int {
 	if i < len(e.prefix) {
 		pick = e.prefix[i]
 		if pick >= n || (i < len(e.prefixN) && e.prefixN[i] != n) {
-			e.Diverged = fmt.Sprintf("choice %d: replay expects n=%v pick=%d, execution offers n=%d kind=%c", i, e.prefixN, pick, n, kind)
+			e.Diverged = fmt.Sprintf("choice %d: replay expects n=%v pick=%d, execution offers n=%d kind=%c %v", i, e.prefixN, pick, n, kind, e.offer)
 			e.Choices = append(e.Choices, ChoiceRec{N: n, Pick: 0, Kind: kind, SelfEnabled: selfEn, ClockAt: clockAt})
 			e.abortFrom(e.running)
 		}
